@@ -6,6 +6,8 @@ import (
 	"fmt"
 	"go/token"
 	"go/types"
+	"sort"
+	"strings"
 
 	"golang.org/x/tools/go/ssa"
 )
@@ -20,35 +22,72 @@ func (x *Exec) loopContract(fr *Frame, h *ssa.BasicBlock) *LoopContract {
 
 // invEnv builds the name environment for clauses evaluated inside fr (parameters, named phis, debug names).
 func (x *Exec) invEnv(fr *Frame) map[string]Val {
+	return x.invEnvAt(fr, nil)
+}
+
+// invEnvAt: priority (highest first): phis of the given loop header, debug names (latest value of each
+// source variable on this path), parameters / captured cells / address-taken locals, other named phis.
+func (x *Exec) invEnvAt(fr *Frame, h *ssa.BasicBlock) map[string]Val {
 	env := map[string]Val{}
-	for v, val := range fr.env {
-		switch p := v.(type) {
-		case *ssa.Parameter:
-			env[p.Name()] = val
-		case *ssa.FreeVar:
-			env["&"+p.Name()] = val
-		case *ssa.Phi:
-			if p.Comment != "" {
-				env[p.Comment] = val
+	set := func(name string, v Val) {
+		if _, dup := env[name]; !dup {
+			env[name] = v
+		}
+	}
+	if h != nil {
+		for _, ins := range h.Instrs {
+			phi, ok := ins.(*ssa.Phi)
+			if !ok {
+				break
 			}
-		case *ssa.Alloc:
-			if p.Comment != "" {
-				if _, dup := env["&"+p.Comment]; !dup {
-					env["&"+p.Comment] = val
+			if phi.Comment != "" {
+				if v, ok := fr.env[phi]; ok {
+					set(strings.ReplaceAll(phi.Comment, ".", "_"), v)
 				}
 			}
 		}
 	}
-	for n, v := range fr.names {
-		if val, ok := fr.env[v]; ok {
-			if _, dup := env[n]; !dup {
-				env[n] = val
-			}
+	var names []string
+	for n := range fr.names {
+		names = append(names, n)
+	}
+	sort.Strings(names)
+	for _, n := range names {
+		if val, ok := fr.env[fr.names[n]]; ok {
+			set(n, val)
+		} else if c, ok := fr.names[n].(*ssa.Const); ok {
+			set(n, x.constVal(c))
 		}
 	}
-	// entry values of parameters
 	for i, p := range fr.fn.Params {
+		if v, ok := fr.env[p]; ok {
+			set(p.Name(), v)
+		}
 		env[p.Name()+"0"] = fr.params[i]
+	}
+	for _, f := range fr.fn.FreeVars {
+		if v, ok := fr.env[f]; ok {
+			set("&"+f.Name(), v)
+		}
+	}
+	// address-taken locals and remaining named phis, in block order for determinism
+	for _, b := range fr.fn.Blocks {
+		for _, ins := range b.Instrs {
+			switch p := ins.(type) {
+			case *ssa.Alloc:
+				if p.Comment != "" {
+					if v, ok := fr.env[p]; ok {
+						set("&"+p.Comment, v)
+					}
+				}
+			case *ssa.Phi:
+				if p.Comment != "" {
+					if v, ok := fr.env[p]; ok {
+						set(strings.ReplaceAll(p.Comment, ".", "_"), v)
+					}
+				}
+			}
+		}
 	}
 	return env
 }
@@ -91,7 +130,7 @@ func (x *Exec) loopHeader(fr *Frame, h *ssa.BasicBlock, pred *ssa.BasicBlock, np
 		if lc == nil {
 			return true
 		}
-		ce := &CEnv{x: x, st: st, old: fr.entry, vars: x.invEnv(fr), pkg: x.cs.pkgOf(fr.fn), fr: fr, entryAllocW: fr.entry.allocW, loopEntry: fr.loopEntry[h]}
+		ce := &CEnv{x: x, st: st, old: fr.entry, vars: x.invEnvAt(fr, h), pkg: x.cs.pkgOf(fr.fn), fr: fr, entryAllocW: fr.entry.allocW, loopEntry: fr.loopEntry[h]}
 		for _, inv := range lc.Invariants {
 			t, err := ce.evalBool(inv)
 			if err != nil {
@@ -107,7 +146,7 @@ func (x *Exec) loopHeader(fr *Frame, h *ssa.BasicBlock, pred *ssa.BasicBlock, np
 			return
 		}
 		if lc != nil && lc.Decreases != nil {
-			ce := &CEnv{x: x, st: st, old: fr.entry, vars: x.invEnv(fr), pkg: x.cs.pkgOf(fr.fn), fr: fr, entryAllocW: fr.entry.allocW, loopEntry: fr.loopEntry[h]}
+			ce := &CEnv{x: x, st: st, old: fr.entry, vars: x.invEnvAt(fr, h), pkg: x.cs.pkgOf(fr.fn), fr: fr, entryAllocW: fr.entry.allocW, loopEntry: fr.loopEntry[h]}
 			m, err := ce.eval(lc.Decreases.Expr)
 			if err != nil {
 				x.fail("%s loop %d decreases: %v", funcName(fr.fn), ord, err)
@@ -118,10 +157,12 @@ func (x *Exec) loopHeader(fr *Frame, h *ssa.BasicBlock, pred *ssa.BasicBlock, np
 				x.oblige(fr, st, "decr", fmt.Sprintf("%s.loop%d", shortFn(fr.fn), ord), h.Instrs[0].Pos(), goal, lc.Decreases.Text)
 			}
 		}
+		x.frameCheckTop(st)
 		x.countPath()
 		return
 	}
 	// entry edge
+	fr.loopEntry[h] = st.clone()
 	if !evalInv("inv-entry") {
 		return
 	}
@@ -234,7 +275,7 @@ func (x *Exec) loopHeader(fr *Frame, h *ssa.BasicBlock, pred *ssa.BasicBlock, np
 	}
 	st.loopFrames = append(st.loopFrames, lf)
 	if lc != nil {
-		ce := &CEnv{x: x, st: st, old: fr.entry, vars: x.invEnv(fr), pkg: x.cs.pkgOf(fr.fn), fr: fr, entryAllocW: fr.entry.allocW, loopEntry: fr.loopEntry[h]}
+		ce := &CEnv{x: x, st: st, old: fr.entry, vars: x.invEnvAt(fr, h), pkg: x.cs.pkgOf(fr.fn), fr: fr, entryAllocW: fr.entry.allocW, loopEntry: fr.loopEntry[h]}
 		for _, inv := range lc.Invariants {
 			t, err := ce.evalBool(inv)
 			if err != nil {
